@@ -215,8 +215,12 @@ def c01_parseval(ctx, case):
 def wk_case(draw):
     x = draw(data_1d(max_small=64, max_big=128))
     N = x["n"]
+    nfft = draw(gen.nfft_at_least(2 * N - 1))
+    if draw(st.integers(0, 11)) == 11:
+        # grids beyond the function's default size 4096 (primes and smooth sizes): "any NFFT >= 2N-1"
+        nfft = draw(st.sampled_from([4097, 4099, 4999, 5000, 5003, 6007, 8192]))
     return {"x": x, "declare_complex": draw(st.integers(0, 5)) == 5,
-            "nfft": draw(gen.nfft_at_least(2 * N - 1)),
+            "nfft": nfft,
             "method": draw(st.sampled_from(["xcorr", "CORRELATION"])),
             "window": draw(st.sampled_from(["rectangular", "rectangle"]))}
 
